@@ -3,7 +3,9 @@
 (* Trace validation for C11 (direction B).  Every record is one call of    *)
 (* HessianMatrix.diagonalize_hessian recorded from the real code:          *)
 (*   the configuration as scaled integers / rationals (fields of           *)
-(*   Hessian!config, shift as 0/1), and the observations                   *)
+(*   Hessian!config, shift as 0/1; K <= 3 species of which any non-empty   *)
+(*   subset occurs; morder = the order in which the mass map was written), *)
+(*   and the observations                                                  *)
 (*     pattern   = pairs <<i, j>>, i < j, whose off-diagonal block of the  *)
 (*                 saved matrix is not identically zero,                   *)
 (*     symmetric = 1 iff the saved matrix is symmetric (harness, 1e-9),    *)
@@ -29,9 +31,18 @@ CfgOfRec(rec) ==
 IsTie(g) == AnyTie(g) \/ AnyZero(g) \/ \E k \in 1..Len(g) : g[k].edge
 ExpectedPattern(g) == {<<g[k].i, g[k].j>> : k \in Interacting(g)}
 
+\* a record is well formed when its species labels lie in the species table 1..K (any non-empty subset may
+\* occur), the parameter matrices are K x K and `morder` (the order in which the mass map was written down)
+\* enumerates 1..K; a malformed record is a fault of the recorder, not of the code
+WellFormed(rec) ==
+  LET c == CfgOfRec(rec) IN
+  /\ SpeciesOK(c) /\ IsEnumeration(rec.morder, NSpecies(c))
+  /\ Len(c.eps) = NSpecies(c) /\ Len(c.sigma) = NSpecies(c) /\ Len(c.rc) = NSpecies(c)
+
 Why(rec) ==
   LET g == TLCEval(GeoOf(CfgOfRec(rec))) IN
-  IF IsTie(g) THEN ""
+  IF ~WellFormed(rec) THEN "BadRecord"
+  ELSE IF IsTie(g) THEN ""
   ELSE IF rec.finite # 1 THEN "Finite"
   ELSE IF Range(rec.pattern) # ExpectedPattern(g) THEN "InteractingPairSet"
   ELSE IF rec.symmetric # 1 THEN "Symmetric"
